@@ -40,6 +40,8 @@ type readerModel struct {
 	Seed       *types.Func
 	SeedKeyArg bool
 	HasValue   bool
+	FullRange  bool   // the walk covers every delta of the block (index 0 and len-1 included)
+	RangeWhy   string
 	Problems   []string
 }
 
@@ -96,6 +98,7 @@ func runC08(p *core.Prog, r *core.Report) {
 					r.Fail("C08.R2", which+"/shape", "the walk over the block's deltas has a classifiable shape", pr, pos)
 				}
 				r.Check(m.Dir == sp.dir, "C08.R2", which+"/direction", fmt.Sprintf("the deltas are scanned in direction %+d", sp.dir), fmt.Sprintf("direction is %+d", m.Dir), pos)
+				r.Check(m.FullRange, "C08.R2", which+"/all-deltas", "the walk can reach every delta of the block: it starts at the first (or last) one and its bound includes the other end", m.RangeWhy, pos)
 				r.Check(m.KeySkip && m.KeyMatched, "C08.R2", which+"/key-filter", "deltas of other keys are skipped without changing the answer; deltas are interpreted only under Key == key",
 					fmt.Sprintf("skip-unchanged=%v, kinds-under-key-match=%v", m.KeySkip, m.KeyMatched), pos)
 				if sp.stop {
@@ -539,6 +542,18 @@ func buildReaderModel(p *core.Prog, fn *ssa.Function, opNames map[string]string)
 	}
 	l := loops[0]
 	m.Dir, _ = l.InductionDir()
+	m.FullRange, m.RangeWhy = l.FullRange(func(v ssa.Value) bool {
+		c, ok := core.SkipConv(v).(*ssa.Call)
+		if !ok {
+			return false
+		}
+		b, ok := c.Call.Value.(*ssa.Builtin)
+		if !ok || b.Name() != "len" {
+			return false
+		}
+		f, _ := core.LoadedField(c.Call.Args[0])
+		return f == deltasF
+	})
 	sig := fn.Signature
 	m.HasValue = sig.Results().Len() == 2
 	// parameter names
